@@ -6,6 +6,7 @@ import MF.Model.Lexer
 import MF.Model.File
 import MF.Model.Split
 import MF.Model.Quote
+import MF.Spec.Lexical
 open MF MF.Lex
 
 def hx (b : Bytes) : String := if b.isEmpty then "-" else toHex b
@@ -56,6 +57,13 @@ def handle (line : String) : String :=
         | none => "CRASH"
       s!"{hx (Quote.quoteString isPrint buf)} {hx (Quote.quoteBytes buf)} {qi}"
     | _, _ => "BADREQ"
+  | ["SPEC", h] =>
+    match ofHex? (if h == "-" then "" else h) with
+    | some buf =>
+      match Spec.Lexical.lexAll buf with
+      | none => "REJECT"
+      | some rs => " ".intercalate (rs.map (fun r => s!"{hx r.kind.toBytes}|{r.pos}|{r.end}|{hx r.value}|{r.base}")) ++ " OK"
+    | none => "BADREQ"
   | ["SPLIT", h] =>
     match ofHex? (if h == "-" then "" else h) with
     | some buf =>
